@@ -3,7 +3,7 @@
 
 Each worker gets a scratch worktree of /repo and a scratch copy of /verif under /tmp (removed afterwards); the
 check is pointed at the worktree with STATHAM_REPO.  Results are merged into seeded/<id>/meta.json["checks"].
-usage: tools/seed_matrix_parallel.py [--workers N] [SEED_ID ...]"""
+usage: tools/seed_matrix_parallel.py [--workers N] [--own] [SEED_ID ...]   (--own: only the check of the seed's own property)"""
 import json
 import os
 import shutil
@@ -20,7 +20,7 @@ def sh(cmd, **kw):
 
 
 def worker(idx, queue, results, lock):
-    base = f"/tmp/mx-{idx}"
+    base = f"/tmp/mx{'o' if OWN else ''}-{idx}"
     shutil.rmtree(base, ignore_errors=True)
     os.makedirs(base)
     repo, verif = f"{base}/repo", f"{base}/verif"
@@ -39,7 +39,7 @@ def worker(idx, queue, results, lock):
                     results[sid] = None
                 continue
             res = {}
-            for p in ALL:
+            for p in ([sid[:3]] if OWN else ALL):
                 r = sh(f"cd {verif} && ./check {p} --tier quick", env=env)
                 line = next((l for l in r.stdout.splitlines() if l.startswith("VIOLATION")), "")
                 res[p] = {"exit": r.returncode, "caught": r.returncode == 1 and bool(line),
@@ -51,6 +51,9 @@ def worker(idx, queue, results, lock):
     finally:
         sh(f"git -C /repo worktree remove --force {repo}")
         shutil.rmtree(base, ignore_errors=True)
+
+
+OWN = "--own" in sys.argv
 
 
 def main():
@@ -73,7 +76,8 @@ def main():
         meta = json.load(open(mp)) if os.path.exists(mp) else {"id": sid}
         meta.setdefault("checks", {}).update(res)
         meta["caught_by"] = sorted(p for p, x in meta["checks"].items() if x["caught"])
-        meta["cross_matrix"] = "tools/seed_matrix_parallel.py: every check's quick tier against this change, in a scratch worktree (STATHAM_REPO)"
+        if not OWN:
+            meta["cross_matrix"] = "tools/seed_matrix_parallel.py: every check's quick tier against this change, in a scratch worktree (STATHAM_REPO)"
         json.dump(meta, open(mp, "w"), indent=1)
 
 
